@@ -7,7 +7,7 @@
 From Coq Require Import String List NArith ZArith Bool.
 From J5V.lib Require Import Text Outcome.
 From J5V.model Require Import BclLexer BclParser BclFmt.
-From J5V.proofs Require Import BclPosProofs BclLexerProofs BclParserProofs BclFmtProofs BclFmtLitProofs BclReflowProofs BclLexLitProofs BclFmtSeqProofs BclFragWfProofs BclFmtLineProofs.
+From J5V.proofs Require Import BclPosProofs BclLexerProofs BclParserProofs BclFmtProofs BclFmtLitProofs BclReflowProofs BclLexLitProofs BclFmtSeqProofs BclFragWfProofs BclFmtLineProofs BclWalkBackProofs.
 Import ListNotations.
 
 (* ---- the position-free document of a fragment list -------------------------------------------- *)
@@ -162,6 +162,20 @@ Theorem C09_line_relex : forall f n REST s,
 Proof. exact fragment_line_relex. Qed.
 Print Assumptions C09_line_relex.
 
+(* fragment level, walker half: walking any token list (whatever its positions) whose types and
+   literals are the canonical tokens of renderable fragments and description blocks, each line
+   ended by an EOL, optionally preceded by a blank line, rebuilds fragments with the same
+   documents — same types, tags, marks, qualifiers, keys, operators, values, comments *)
+Theorem C09_walk_back : forall es fuel s, stream_ok es -> pt s = stream es ->
+  (length (wrest s) < fuel)%nat ->
+  exists fs, walk_fragments_loop fuel true s = WalkOk fs [] /\
+             map (fun f => match f with FDesc d => DD (dvalue d) | _ => fdoc_of f end) fs
+             = map (fun be => entry_doc (snd be)) es.
+Proof.
+  intros es fuel s H1 H2 H3. destruct (walk_stream_back es fuel s H1 H2 H3) as (fs & A & _ & B). eauto.
+Qed.
+Print Assumptions C09_walk_back.
+
 (* idempotence of the description re-flow (finding 22 lived here): feeding the re-flowed lines back
    gives the same lines, for every text and every width (also negative) *)
 Theorem C09_reflow_fixed_point : forall maxw input,
@@ -169,9 +183,9 @@ Theorem C09_reflow_fixed_point : forall maxw input,
 Proof. exact reflow_fixed_point. Qed.
 Print Assumptions C09_reflow_fixed_point.
 
-(* PARTIAL: C09_full_statement itself is not proved.  Missing: the lines of description blocks, the
-   concatenation of lines into the file, and the walker half of the round trip (walking the tokens
-   read back gives the same fragments up to positions),
+(* PARTIAL: C09_full_statement itself is not proved.  Missing: the lines of description blocks and the
+   concatenation of the rendered lines into one file whose tokens are the canonical stream (so that
+   C09_line_relex and C09_walk_back compose), preservation of description paragraphs by the re-flow,
    and that rendering is a normal form on its own image (idempotence of the whole formatter; the
    description re-flow part is C09_reflow_fixed_point).  Those clauses are evaluated on every run by the direct
    oracle (re-parse, document comparison, format twice) and the byte-exact correspondence of Fmt. *)
